@@ -50,3 +50,6 @@ mod session;
 mod src_manager;
 
 pub use session::Session;
+
+#[cfg(feature = "verif")]
+pub use print::verif;
